@@ -418,15 +418,23 @@ class Midline(
             self.ext.contra.set_tumor_spread_params(**ext_contra_kwargs)
 
         else:
+            noext_kwargs, _ = utils.unflatten_and_split(
+                kwargs.get("noext", {}),
+                expected_keys=["contra"],
+            )
             noext_contra_kwargs = global_kwargs.copy()
-            noext_contra_kwargs.update(kwargs.get("noext", {}).get("contra", {}))
+            noext_contra_kwargs.update(noext_kwargs.get("contra", {}))
             args = self.noext.contra.set_tumor_spread_params(
                 *args,
                 **noext_contra_kwargs,
             )
 
+            ext_kwargs, _ = utils.unflatten_and_split(
+                kwargs.get("ext", {}),
+                expected_keys=["contra"],
+            )
             ext_contra_kwargs = global_kwargs.copy()
-            ext_contra_kwargs.update(kwargs.get("ext", {}).get("contra", {}))
+            ext_contra_kwargs.update(ext_kwargs.get("contra", {}))
             args = self.ext.contra.set_tumor_spread_params(*args, **ext_contra_kwargs)
 
         return args
